@@ -421,6 +421,54 @@ func init() {
 			c.m.assume(smt.And(smt.FCmp("fp.geq", r, smt.F64(0)), smt.FCmp("fp.lt", r, smt.F64(1))))
 			c.ret(r)
 		},
+		"crypto/rand.Read": func(c *stubCtx) {
+			sl := c.args[0].(Slice)
+			if c.m.Cfg.Opts["rand"] == "concrete" {
+				// distinct concrete bytes per call (keeps generated ids concrete in harnesses whose subject is not the id generator)
+				c.m.randN++
+				for k := 0; k < sl.Len; k++ {
+					sl.C.E[sl.Off+k] = smt.BV(8, uint64((c.m.randN*37+k*11)&0xff))
+				}
+			} else {
+				for k := 0; k < sl.Len; k++ {
+					sl.C.E[sl.Off+k] = c.m.freshVar("rand_b", smt.SBV(8))
+				}
+			}
+			c.ret(Tuple{smt.BV(64, uint64(sl.Len)), Iface{}})
+		},
+		"encoding/json.Unmarshal": func(c *stubCtx) {
+			c.m.Res.Assumptions["encoding/json.Unmarshal stubbed: succeeds and leaves the target at its current value"] = true
+			c.ret(Iface{})
+		},
+		"encoding/json.Marshal": func(c *stubCtx) {
+			c.m.Res.Assumptions["encoding/json.Marshal stubbed: returns the opaque text {}"] = true
+			s := mkStr("{}")
+			cells := c.m.newCells(2)
+			cells.E[0], cells.E[1] = s.B[0], s.B[1]
+			c.ret(Tuple{Slice{C: cells, Len: 2, Cap: 2}, Iface{}})
+		},
+		"errors.As": func(c *stubCtx) {
+			err := c.args[0].(Iface)
+			tgt := c.args[1].(Iface)
+			pt, ok := tgt.T.Underlying().(*types.Pointer)
+			if !ok || err.T == nil {
+				c.ret(smt.False)
+				return
+			}
+			p := tgt.V.(Ptr)
+			if types.Identical(err.T, pt.Elem()) {
+				c.m.storeCell(p.C, p.I, err.V)
+				c.ret(smt.True)
+				return
+			}
+			if it, isI := pt.Elem().Underlying().(*types.Interface); isI && types.Implements(err.T, it) {
+				c.m.storeCell(p.C, p.I, err)
+				c.ret(smt.True)
+				return
+			}
+			c.m.Res.Assumptions["errors.As: wrapped error chains are not followed"] = true
+			c.ret(smt.False)
+		},
 		"errors.Is": func(c *stubCtx) {
 			// identity comparison only (wrapped chains built by the fmt.Errorf stub are opaque)
 			c.ret(c.m.equal(c.args[0], c.args[1], c.ins))
